@@ -1,7 +1,8 @@
 (* Props/C02.v -- property theorems for C02 (the parser reports exactly the events
    of the VT500 state machine).  Only statements, each closed by [exact]. *)
 From Coq Require Import NArith List Bool.
-From AV Require Import Generated.Table Spec.Vt Model.Base Model.Parser Proofs.TableFacts.
+From AV Require Import Generated.Table Spec.Utf8 Spec.Vt Model.Base Model.Parser Proofs.TableFacts
+  Proofs.VtFacts Proofs.ParserSim Proofs.VtLimits Proofs.VtCancel Proofs.VtCsi Proofs.ParserCor.
 Import ListNotations.
 Local Open Scope N_scope.
 
@@ -15,3 +16,141 @@ Proof. exact table_is_williams. Qed.
 Theorem c02_state_change_total :
   forall s b, b < 256 -> exists s' a, state_change s b = Some (s', a).
 Proof. exact state_change_total. Qed.
+
+(* ---- 1. refinement ---------------------------------------------------------- *)
+
+(* for every byte stream the model of Parser::advance (arrays with bounds-checked
+   writes, checked subtractions, fuelled ParamsIter, the utf8parse automaton with
+   its bit-level code-point accumulation) reports exactly the callbacks of the
+   independent specification, in the same order with the same arguments; in
+   particular it never reaches a panic ([None]).  Proved by a simulation relation
+   (Proofs/ParserSim.R) and the table theorem above -- full strength, no gap. *)
+Theorem c02_parser_refines_spec :
+  forall bs, Forall (fun b => b < 256) bs -> events_model bs = Some (spec_events bs).
+Proof. exact parser_refines_spec. Qed.
+
+Theorem c02_parser_never_panics :
+  forall bs, Forall (fun b => b < 256) bs -> events_model bs <> None.
+Proof. exact parser_never_panics. Qed.
+
+(* the simulation step behind it: one call of advance against one spec step *)
+Theorem c02_advance_simulates_step :
+  forall p s b, R p s -> b < 256 ->
+  exists p', advance cfg_default p b = Some (p', snd (vt_step s b)) /\ R p' (fst (vt_step s b)).
+Proof. exact step_sim. Qed.
+
+(* ---- 2. limits --------------------------------------------------------------- *)
+
+(* every event the spec emits, for any byte list: at most 32 values over all
+   parameter groups, at most 2 intermediates, every value <= 65535, at least one
+   group and no empty group; between 1 and 16 OSC fields *)
+Theorem c02_limits :
+  forall bs, Forall event_ok (spec_events bs).
+Proof. exact spec_limits. Qed.
+
+(* hence every event the model (the crate) emits *)
+Theorem c02_limits_model :
+  forall bs, bytes_ok bs -> exists evs, events_model bs = Some evs /\ Forall event_ok evs.
+Proof. exact model_limits. Qed.
+
+(* values saturate at 65535 (no wrap-around): digits fed to a state with room
+   left build min(65535, decimal value) *)
+Theorem c02_limits_saturation :
+  forall ds s, (count_values s < 32)%nat -> pend s = 0 ->
+  Forall (fun d => 48 <= d <= 57) ds ->
+  pend (fold_left param ds s) = N.min 65535 (dec_value ds).
+Proof. exact param_digits_value. Qed.
+
+(* the flag is set exactly when something was discarded: a third intermediate, a
+   parameter byte with 32 values recorded, a dispatch / hook with 32 values
+   recorded; no other action touches it and only the clearing entry actions
+   reset it *)
+Theorem c02_limits_flag :
+  (forall s b, ign (collect s b) = ign s || Nat.eqb (length (ints s)) 2) /\
+  (forall s b, ints (collect s b) = if Nat.eqb (length (ints s)) 2 then ints s else ints s ++ [b]) /\
+  (forall s b, ign (param s b) = ign s || Nat.eqb (count_values s) 32) /\
+  (forall s b, Nat.eqb (count_values s) 32 = true ->
+     closed (param s b) = closed s /\ cur (param s b) = cur s /\ pend (param s b) = pend s) /\
+  (forall s, snd (final_params s) = ign s || Nat.eqb (count_values s) 32) /\
+  (forall s a b, a <> TCollect -> a <> TParam -> ign (fst (do_action s a b)) = ign s) /\
+  (forall s t b, ign (fst (enter s t b)) =
+     match t with VEscape | VCsiEntry | VDcsEntry => false | _ => ign s end).
+Proof. exact flag_exact. Qed.
+
+(* ---- 3. CAN / SUB ------------------------------------------------------------- *)
+
+(* whatever came before, after CAN or SUB the rest of the stream is parsed as by a
+   fresh parser *)
+Theorem c02_cancel_from_anywhere :
+  forall prefix rest c, (c = 24 \/ c = 26) ->
+  Forall (fun b => b < 256) prefix -> Forall (fun b => b < 256) rest ->
+  snd (vt_run (fst (vt_run vt_init (prefix ++ [c]))) rest) = spec_events rest.
+Proof. exact cancel_from_anywhere. Qed.
+
+(* the reason: the events of a continuation depend only on the live part of the
+   state (bookkeeping only in the states that read it, OSC payload only in OSC) *)
+Theorem c02_live_part_determines_events :
+  forall bs s s', Forall (fun b => b < 256) bs -> live_eq s s' ->
+  snd (vt_run s bs) = snd (vt_run s' bs).
+Proof. exact live_eq_run. Qed.
+
+(* the same on the model, without reference to the spec *)
+Theorem c02_cancel_model :
+  forall prefix rest c, (c = 24 \/ c = 26) -> bytes_ok prefix -> bytes_ok rest ->
+  exists e1 e2, events_model (prefix ++ [c]) = Some e1 /\ events_model rest = Some e2 /\
+                events_model (prefix ++ [c] ++ rest) = Some (e1 ++ e2).
+Proof. exact model_cancel. Qed.
+
+(* ---- 4. CSI round trip ---------------------------------------------------------- *)
+
+(* parameter groups given as digit strings (possibly empty, leading zeros allowed,
+   values above 65535 saturate), ':' inside a group, ';' between groups *)
+Theorem c02_csi_roundtrip_digits :
+  forall dss f,
+  dss <> [] -> Forall (fun g => g <> []) dss -> Forall (Forall (Forall is_digit)) dss ->
+  (length (concat dss) <= 32)%nat -> 64 <= f <= 126 ->
+  spec_events ([27; 91] ++ print_digit_params dss ++ [f])
+  = [ECsi (map (map (fun ds => N.min 65535 (digits_val ds))) dss) [] false f].
+Proof. exact csi_roundtrip_digits. Qed.
+
+(* values printed in decimal without leading zeros *)
+Theorem c02_csi_roundtrip :
+  forall ps f,
+  ps <> [] -> Forall (fun g => g <> []) ps -> (length (concat ps) <= 32)%nat ->
+  Forall (Forall (fun v => v <= 65535)) ps -> 64 <= f <= 126 ->
+  spec_events ([27; 91] ++ print_params ps ++ [f]) = [ECsi ps [] false f].
+Proof. exact csi_roundtrip. Qed.
+
+(* ... with any number of leading zeros in front of each value *)
+Theorem c02_csi_roundtrip_zeros :
+  forall ps f,
+  ps <> [] -> Forall (fun g => g <> []) ps -> (length (concat ps) <= 32)%nat ->
+  Forall (Forall (fun zv => snd zv <= 65535)) ps -> 64 <= f <= 126 ->
+  spec_events ([27; 91] ++ print_params_z ps ++ [f]) = [ECsi (map (map snd) ps) [] false f].
+Proof. exact csi_roundtrip_zeros. Qed.
+
+Theorem c02_csi_roundtrip_model :
+  forall ps f,
+  ps <> [] -> Forall (fun g => g <> []) ps -> (length (concat ps) <= 32)%nat ->
+  Forall (Forall (fun v => v <= 65535)) ps -> 64 <= f <= 126 ->
+  events_model ([27; 91] ++ print_params ps ++ [f]) = Some [ECsi ps [] false f].
+Proof. exact model_csi_roundtrip. Qed.
+
+(* ---- non-vacuity ------------------------------------------------------------------ *)
+
+(* ESC [ ? 1 : 2 ; 70000 m , a three-byte character, an OSC with two fields ended by
+   BEL, a DCS cut short by CAN: model and spec agree and report what one expects *)
+Theorem c02_example :
+  events_model [27; 91; 63; 49; 58; 50; 59; 55; 48; 48; 48; 48; 109; 226; 130; 172;
+                27; 93; 48; 59; 104; 105; 7; 27; 80; 49; 113; 65; 24; 66]
+  = Some [ECsi [[1; 2]; [65535]] [63] false 109; EPrint 8364; EOsc [[48]; [104; 105]] true;
+          EHook [[1]] [] false 113; EPut 65; EUnhook; EExecute 24; EPrint 66]
+  /\ spec_events [27; 91; 63; 49; 58; 50; 59; 55; 48; 48; 48; 48; 109; 226; 130; 172;
+                  27; 93; 48; 59; 104; 105; 7; 27; 80; 49; 113; 65; 24; 66]
+  = [ECsi [[1; 2]; [65535]] [63] false 109; EPrint 8364; EOsc [[48]; [104; 105]] true;
+     EHook [[1]] [] false 113; EPut 65; EUnhook; EExecute 24; EPrint 66].
+Proof. vm_compute. split; reflexivity. Qed.
+
+Theorem c02_example_roundtrip :
+  print_params [[38; 2]; [65535]; [0]] = [51; 56; 58; 50; 59; 54; 53; 53; 51; 53; 59; 48].
+Proof. vm_compute. reflexivity. Qed.
